@@ -1,8 +1,9 @@
 #!/bin/bash
 # end-of-session routine: seed table, quick evidence for every property, manifest, validation
 cd /verif
-./seedtable.py | tail -3
-mkdir -p seeded/detect-logs; cp /tmp/detect-*.log seeded/detect-logs/ 2>/dev/null
+# (seedtable.py rebuilds section 13 from /tmp/detect-*.log of a FULL sweep; without those logs it
+#  would wipe the table - rounds 6/7 have their own script)
+./seedtable_r67.py | tail -3
 RC=0
 for i in $(seq -w 1 20); do
   ./check C$i quick > /tmp/final-C$i.log 2>&1; R=$?
